@@ -228,6 +228,57 @@ fn strip_ansi(x: &str) -> String {
     out
 }
 
+/// What the tool printed about its results, read tolerantly (the wording of the lines is not part of any property):
+/// a line that starts with a number and mentions results / colours / states contributes that number; in exhaustive mode a
+/// line made of `n_v` literals `name` / `~name` joined by `&` is a listed state.  One entry per formula, in print order.
+pub struct Printed {
+    pub counts: Vec<[String; 3]>,
+    pub states: Vec<Vec<usize>>,
+}
+
+pub fn parse_printed(clean: &str, n_v: usize) -> Printed {
+    let mut counts: Vec<[String; 3]> = Vec::new();
+    let mut states: Vec<Vec<usize>> = Vec::new();
+    for l in clean.lines() {
+        let t = l.trim();
+        let first = t.split_whitespace().next().unwrap_or("");
+        let is_num = !first.is_empty() && first.chars().all(|c| c.is_ascii_digit() || c == '.' || c == 'e' || c == '+') && first.chars().next().unwrap().is_ascii_digit();
+        let low = t.to_lowercase();
+        if is_num && low.contains("result") {
+            counts.push([first.to_string(), s("?"), s("?")]);
+            states.push(Vec::new());
+        } else if is_num && (low.contains("color") || low.contains("colour")) {
+            if let Some(c) = counts.last_mut() {
+                c[1] = first.to_string();
+            }
+        } else if is_num && low.contains("state") {
+            if let Some(c) = counts.last_mut() {
+                c[2] = first.to_string();
+            }
+        } else if t.contains('&') && !counts.is_empty() {
+            let lits: Vec<&str> = t.split('&').map(|x| x.trim()).filter(|x| !x.is_empty()).collect();
+            let ok = lits.len() == n_v
+                && lits.iter().all(|x| {
+                    let y = x.strip_prefix('~').unwrap_or(x);
+                    !y.is_empty() && y.chars().all(|c| c.is_alphanumeric() || c == '_')
+                });
+            if ok {
+                let mut st = 0usize;
+                for (j, lit) in lits.iter().enumerate() {
+                    if !lit.starts_with('~') {
+                        st |= 1 << j;
+                    }
+                }
+                states.last_mut().unwrap().push(st);
+            }
+        }
+    }
+    for v in states.iter_mut() {
+        v.sort();
+    }
+    Printed { counts, states }
+}
+
 pub fn k9(dir: &str, thorough: bool, seed: u64) {
     let mut out = Out::new(dir, "k9");
     let mut rng = Rng::new(seed ^ 0x99);
@@ -393,47 +444,20 @@ pub fn k9(dir: &str, thorough: bool, seed: u64) {
             out.case(&format!("cli {} {}", if use_ctx { 1 } else { 0 }, enc_chars(&ftext)), &expected, true);
             // what the tool printed per formula (counts; in exhaustive mode also the listed states) against the model
             if opt != "no-print" && matches!(&loaded, Ok(Ok(_))) {
-                let lines: Vec<&str> = clean.lines().collect();
-                let mut per_formula: Vec<String> = Vec::new();
-                for (ln, l) in lines.iter().enumerate() {
-                    if !l.starts_with("Formula: ") {
-                        continue;
-                    }
-                    let num = |x: Option<&&str>, suffix: &str| -> String {
-                        x.and_then(|t| t.strip_suffix(suffix)).map(|t| t.trim().to_string()).unwrap_or_else(|| s("?"))
-                    };
-                    let mut item = format!(
-                        "{}/{}/{}",
-                        num(lines.get(ln + 2), " results in total"),
-                        num(lines.get(ln + 3), " unique colors"),
-                        num(lines.get(ln + 4), " unique states")
-                    );
-                    if opt == "exhaustive" {
-                        let mut states: Vec<usize> = Vec::new();
-                        for sl in lines.iter().skip(ln + 6) {
-                            if *sl == "-----" {
-                                break;
-                            }
-                            let mut st = 0usize;
-                            let mut j = 0usize;
-                            for lit in sl.split(" & ") {
-                                let lit = lit.trim();
-                                if lit.is_empty() {
-                                    continue;
-                                }
-                                if !lit.starts_with('~') {
-                                    st |= 1 << j;
-                                }
-                                j += 1;
-                            }
-                            states.push(st);
+                let pr = parse_printed(&clean, xg.n_v);
+                let per_formula: Vec<String> = pr
+                    .counts
+                    .iter()
+                    .zip(pr.states.iter())
+                    .map(|(c, st)| {
+                        let mut item = format!("{}/{}/{}", c[0], c[1], c[2]);
+                        if opt == "exhaustive" {
+                            item.push(':');
+                            item.push_str(&st.iter().map(|x| x.to_string()).collect::<Vec<_>>().join("."));
                         }
-                        states.sort();
-                        item.push(':');
-                        item.push_str(&states.iter().map(|x| x.to_string()).collect::<Vec<_>>().join("."));
-                    }
-                    per_formula.push(item);
-                }
+                        item
+                    })
+                    .collect();
                 let mode = if opt == "exhaustive" { "full" } else { "counts" };
                 out.count(&format!("cli_model_print_{mode}"));
                 out.case(
@@ -458,52 +482,31 @@ pub fn k9(dir: &str, thorough: bool, seed: u64) {
         if opt == "no-print" {
             out.oracle(clean.trim().is_empty(), "C17", "no-print prints something", &what);
         } else {
-            let mut idx = 0;
-            let lines: Vec<&str> = clean.lines().collect();
-            for (ln, l) in lines.iter().enumerate() {
-                if l.starts_with("Formula: ") {
-                    if idx < lib.len() {
-                        out.oracle(*l == format!("Formula: {}", formulas[idx]), "C17", "formulae are not evaluated in file order", &what);
-                        let want = [
-                            format!("{} results in total", lib[idx].approx_cardinality()),
-                            format!("{} unique colors", lib[idx].colors().approx_cardinality()),
-                            format!("{} unique states", lib[idx].vertices().approx_cardinality()),
-                        ];
-                        let got: Vec<&str> = lines.iter().skip(ln + 2).take(3).cloned().collect();
-                        out.oracle(got == want.iter().map(|x| x.as_str()).collect::<Vec<_>>(), "C17", "printed counts differ from the library", &format!("{what} :: {got:?} vs {want:?}"));
-                        if opt == "exhaustive" {
-                            // listed states = vertices of the library result
-                            let mut listed = BTreeSet::new();
-                            for sl in lines.iter().skip(ln + 6) {
-                                if *sl == "-----" {
-                                    break;
-                                }
-                                let mut bits = String::new();
-                                for lit in sl.split(" & ") {
-                                    let lit = lit.trim();
-                                    if lit.is_empty() {
-                                        continue;
-                                    }
-                                    bits.push(if lit.starts_with('~') { '0' } else { '1' });
-                                }
-                                listed.insert(bits);
-                            }
-                            let mut want_states = BTreeSet::new();
-                            let nvars = xg.n_v;
-                            let proj = xg.bits(&lib[idx]);
-                            let per = xg.n_c * xg.n_s.pow(xg.k as u32);
-                            for st in 0..xg.n_s {
-                                if proj.as_bytes()[st * per..(st + 1) * per].iter().any(|b| *b == b'1') {
-                                    want_states.insert((0..nvars).map(|j| if (st >> j) & 1 == 1 { '1' } else { '0' }).collect::<String>());
-                                }
-                            }
-                            out.oracle(listed == want_states, "C17", "states listed in exhaustive mode differ from the library result", &format!("{what} :: {listed:?} vs {want_states:?}"));
-                        }
-                    }
-                    idx += 1;
+            let pr = parse_printed(&clean, xg.n_v);
+            out.oracle(pr.counts.len() == lib.len(), "C17", "number of printed results differs from the number of formulae", &format!("{what} printed={}", pr.counts.len()));
+            // when the tool echoes the formulae, it echoes them in file order
+            let echoed: Vec<&str> = clean.lines().filter_map(|l| l.strip_prefix("Formula: ")).collect();
+            if !echoed.is_empty() {
+                out.oracle(echoed == formulas.iter().map(|x| x.as_str()).collect::<Vec<_>>(), "C17", "formulae are not evaluated in file order", &what);
+            }
+            for (idx, r) in lib.iter().enumerate() {
+                let Some(got) = pr.counts.get(idx) else { break };
+                let want = [
+                    format!("{}", r.approx_cardinality()),
+                    format!("{}", r.colors().approx_cardinality()),
+                    format!("{}", r.vertices().approx_cardinality()),
+                ];
+                out.oracle(*got == want, "C17", "printed counts differ from the library", &format!("{what} :: {got:?} vs {want:?}"));
+                if opt == "exhaustive" {
+                    // listed states = vertices of the library result
+                    let proj = xg.bits(r);
+                    let per = xg.n_c * xg.n_s.pow(xg.k as u32);
+                    let want_states: Vec<usize> = (0..xg.n_s)
+                        .filter(|st| proj.as_bytes()[st * per..(st + 1) * per].iter().any(|b| *b == b'1'))
+                        .collect();
+                    out.oracle(pr.states[idx] == want_states, "C17", "states listed in exhaustive mode differ from the library result", &format!("{what} :: {:?} vs {want_states:?}", pr.states[idx]));
                 }
             }
-            out.oracle(idx == lib.len(), "C17", "number of printed results differs from the number of formulae", &format!("{what} printed={idx}"));
         }
         for p in [&mpath, &fpath, &cpath, &opath] {
             let _ = std::fs::remove_file(p);
